@@ -6,5 +6,6 @@ CONSTANTS NClasses = 3
  MaxMarks = 1
  WithDeps = TRUE
  MaxDeps = 1
+ OnlyFaulty = FALSE
 INVARIANT Emit
 CHECK_DEADLOCK FALSE
